@@ -13,7 +13,6 @@ import (
 	"os"
 	"path/filepath"
 	"runtime"
-	"sort"
 	"strings"
 	"sync"
 	"sync/atomic"
@@ -535,15 +534,18 @@ func run(r *ev.Run) {
 		"without _id in the sort only the sequence of sort keys and the id set of each tie group are compared; such requests ask for all matches, pages are only requested under a total order",
 		"all layouts are scorch; upsidedown is not a segment layout and is out of this property",
 		"schedule diversity comes from seeded delays at the verif hook points (not from the gate scheduler of DESIGN §4.4)",
+		"ForceMerge and Close are bounded by a 60 s watchdog; when it fires the layout is abandoned and counted as inconclusive, never as a violation",
+		"on a tree with defects at most 150 differing answers per run are shrunk and classified (the rest is counted), and the history of at most 12 classes is shrunk by rebuilding the layouts",
+		"minimal witnesses of F11 and of the three defects this monitor found (L1 deleted terms, L2 fuzzy distance per segment version, L3 heap summation order) are replayed on every run",
 	}
 	installHook()
 	if r.ReplayPath != "" {
 		replay(r, r.ReplayPath)
 		return
 	}
-	nHist := r.Scale(40, 700)
+	nHist := r.Scale(40, 320)
 	nReq := r.Scale(36, 60)
-	r.MinDistinct = r.Scale(4000, 120000)
+	r.MinDistinct = r.Scale(6000, 150000)
 	dir := r.TempDir()
 	stats := &histStats{fpKeys: map[string]struct{}{}, kindSegs: map[string][2]int{}, kindDel: map[string]uint64{}, kindViews: map[string]int{}}
 
@@ -831,5 +833,3 @@ func (h *history) mismatch(q *Req, qi int, l *liveLayout, ph string, refAns, got
 func classOf(w *mismatchWitness) string {
 	return fmt.Sprintf("%s/%s-vs-%s/%s", w.Aspect, w.LayoutA.Kind, w.LayoutB.Kind, shape(w.Request.Q))
 }
-
-var _ = sort.Strings
